@@ -45,11 +45,11 @@ theorem connCreateTable_plain (n : Nat) (d : Dialect) (hd : plainConn d) (c : Ca
 
 theorem exec_generator (t : Str) (w : Cat) :
     execSQL ([67, 82, 69, 65, 84, 69, 32, 71, 69, 78, 69, 82, 65, 84, 79, 82, 32, 71, 69, 78, 95] ++ t) w = .ok w := by
-  simp [execSQL, strip, pCT, pDT, pCI, pCUI]
+  simp [execSQL, strip, pCT, pDT, pCI, pCUI, pAT]
 
 theorem exec_sequence (t : Str) (w : Cat) :
     execSQL ([67, 82, 69, 65, 84, 69, 32, 83, 69, 81, 85, 69, 78, 67, 69, 32] ++ t) w = .ok w := by
-  simp [execSQL, strip, pCT, pDT, pCI, pCUI]
+  simp [execSQL, strip, pCT, pDT, pCI, pCUI, pAT]
 
 /-- Firebird / MaxDB `createTable`: CREATE TABLE, then the generator / sequence statement (no catalogue effect) -/
 theorem connCreateTable_seq (n : Nat) (d : Dialect) (hd : d = .firebird ∨ d = .maxdb) (c : Caps) (decl : Decl) (c0 : Val)
@@ -108,7 +108,7 @@ def dropTableFn : Dialect → Fn
 theorem exec_drop_other (k : Nat) (hk : k ≠ 84) (rest : Str) (w : Cat) :
     execSQL (68 :: 82 :: 79 :: 80 :: 32 :: k :: rest) w = .ok w := by
   have hk' : ¬ (84 = k) := fun e => hk e.symm
-  simp [execSQL, strip, pCT, pDT, pCI, pCUI, hk']
+  simp [execSQL, strip, pCT, pDT, pCI, pCUI, pAT, hk']
 
 /-- `conn.dropTable(table, cascade)` of all seven connection classes: one `DROP TABLE` statement (`… CASCADE` on
     PostgreSQL when asked), followed on Firebird / MaxDB by the generator / sequence statement (no catalogue effect) -/
